@@ -205,3 +205,83 @@ def guarded_assignments(text: str, lhs_re: str):
         out.append((m.start(), m.group(1), " ".join(m.group(2).split()), None))
     out.sort()
     return [(l, r, c) for _, l, r, c in out]
+
+
+def _balanced(text: str, i: int, open_ch: str, close_ch: str) -> int:
+    """index just past the bracket that closes the one at text[i]"""
+    depth = 0
+    while i < len(text):
+        if text[i] == open_ch:
+            depth += 1
+        elif text[i] == close_ch:
+            depth -= 1
+            if depth == 0:
+                return i + 1
+        i += 1
+    raise CParseError("unbalanced bracket")
+
+
+_block_ids = iter(range(1, 1 << 60))
+
+
+def scalar_statements(text: str, guards=()):
+    """[(guards, name, rhs_text)] for every `[type] name = rhs;` statement of a statement list (comments and preprocessor
+    lines already removed), descending into `if (c) stmt`, `if (c) { … }` and `else` (guards = the conditions in force, an
+    `else` branch carries "!(c)"; each guard is (condition text, block id): the condition is evaluated once per block, not once
+    per statement).  Loops and other statements are skipped."""
+    out = []
+    i, n = 0, len(text)
+    last_cond = None
+    while i < n:
+        while i < n and text[i] in " \t\n;":
+            i += 1
+        if i >= n:
+            break
+        m = re.compile(r"(if|for|while)\s*\(").match(text, i)
+        e = re.compile(r"else\b").match(text, i)
+        if m or e:
+            if m:
+                j = _balanced(text, m.end() - 1, "(", ")")
+                cond = " ".join(text[m.end():j - 1].split())
+                kind = m.group(1)
+            else:
+                j = e.end()
+                cond = f"!({last_cond})"
+                kind = "else"
+            while j < n and text[j] in " \t\n":
+                j += 1
+            if j < n and text[j] == "{":
+                k = _balanced(text, j, "{", "}")
+                inner = text[j + 1:k - 1]
+            else:
+                k = j
+                depth = 0
+                while k < n and not (text[k] == ";" and depth == 0):
+                    depth += text[k] in "({["
+                    depth -= text[k] in ")}]"
+                    k += 1
+                k += 1
+                inner = text[j:k]
+            if kind in ("if", "else"):
+                out += scalar_statements(inner, guards + ((cond, next(_block_ids)),))
+                last_cond = cond if kind == "if" else None
+            i = k
+            continue
+        if text[i] == "{":
+            k = _balanced(text, i, "{", "}")
+            out += scalar_statements(text[i + 1:k - 1], guards)
+            i = k
+            continue
+        k = i
+        depth = 0
+        while k < n and not (text[k] == ";" and depth == 0):
+            depth += text[k] in "({["
+            depth -= text[k] in ")}]"
+            k += 1
+        stmt = " ".join(text[i:k].split())
+        i = k + 1
+        last_cond = None
+        sm = re.fullmatch(r"(?:(?:const|static|unsigned)\s+)*(?:[A-Za-z_][\w:]*[\s\*&]+)?([A-Za-z_]\w*)\s*=(?!=)\s*(.*)", stmt, re.S)
+        if sm:
+            out.append((guards, sm.group(1), sm.group(2).strip()))
+    return out
